@@ -210,6 +210,8 @@ func c15Corpus() []c04Session {
 	st := pgproto.Startup("user", "u")
 	out = append(out,
 		c04Session{Name: "plain / static statement, types pre-declared in Parse", Segs: [][]byte{st, pgproto.Parse("s", "static q", 23, 0, 20), pgproto.Describe('S', "s"), pgproto.Bind("", "s", nil, [][]byte{[]byte("1"), []byte("b"), []byte("3")}, nil), pgproto.Execute("", 0), pgproto.Sync()}},
+		c04Session{Name: "plain / parameter types filled in for user typed-1", Segs: [][]byte{pgproto.Startup("user", "typed-1"), pgproto.Parse("s", "typedparams $1 $2"), pgproto.Describe('S', "s"), pgproto.Sync()}},
+		c04Session{Name: "plain / parameter types left open for user typed-2", Segs: [][]byte{pgproto.Startup("user", "typed-2"), pgproto.Parse("s", "typedparams $1 $2"), pgproto.Describe('S', "s"), pgproto.Sync(), pgproto.Parse("", "typedparams $1 $2"), pgproto.Describe('S', ""), pgproto.Sync()}},
 		c04Session{Name: "plain / shared error value refined for this connection", Segs: [][]byte{st, pgproto.Query("sentinel u1"), pgproto.Query("sentinel u1 again")}},
 		c04Session{Name: "plain / shared error value as it is", Segs: [][]byte{st, pgproto.Query("sentinel"), pgproto.Parse("", "sentinel"), pgproto.Bind("", "", nil, nil, nil), pgproto.Execute("", 0), pgproto.Sync()}},
 		c04Session{Name: "plain / static statement", Segs: [][]byte{st, pgproto.Parse("s", "static q"), pgproto.Describe('S', "s"), pgproto.Sync()}},
